@@ -247,6 +247,24 @@ def direct_and_scaled(prob, rng, tid):
         xu, fu = EquationSolver.nonlinear_equation_solve(real, np.array(x0), p_new, s, useWarmStart=warm)
     agree = "EQ" if float(onp.linalg.norm(onp.asarray(xs) - onp.asarray(xu))) <= 1e-6 * (1 + float(onp.linalg.norm(onp.asarray(xu)))) else "NE"
     ev.append(dict(e="Scaled", agree=agree, flagS=bool(fs), flagU=bool(fu)))
+    # the same through the bound-constrained driver, with finite bounds some of which are active at the solution
+    from optimism import TrustRegionSPG
+    xfree = onp.asarray(xu)
+    lb = np.array([xfree[i] - (0.0 if i == 0 else 5.0) for i in range(N)]) - np.array([0.3, 0.0, 0.0])
+    ub = np.array([xfree[i] + (5.0 if i != 1 else -0.2 * (1 + abs(xfree[1]))) for i in range(N)])    # upper bound active on dof 1
+    xstart = np.minimum(np.maximum(np.array(x0), lb), ub)
+    try:
+        with Silence():
+            ss = TrustRegionSPG.get_settings(debug_info=False)
+            so.p = p_old
+            xs2, fs2 = TrustRegionSPG.solve(so, np.array(xstart), p_new, lb, ub, ss, useWarmStart=False)
+            real.p = p_old
+            xu2, fu2 = TrustRegionSPG.solve(real, np.array(xstart), p_new, lb, ub, ss, useWarmStart=False)
+        agree2 = "EQ" if float(onp.linalg.norm(onp.asarray(xs2) - onp.asarray(xu2))) <= 1e-6 * (1 + float(onp.linalg.norm(onp.asarray(xu2)))) else "NE"
+        ev.append(dict(e="Scaled", agree=agree2, flagS=bool(fs2), flagU=bool(fu2), driver="SPG"))
+    except RuntimeError as ex:          # find_generalized_cauchy_point may raise (outside the contract): no observation
+        if "Cauchy" not in str(ex):
+            raise
     return dict(id=tid, ev=ev)
 
 
